@@ -101,7 +101,7 @@ class AlterForDebugging(Contract):
 
     def ensures(self, E, a, res, old, wrong=False):
         out = {}
-        conj_tr, conj_rec = [], []
+        conj_tr, conj_rec, conj_again = [], [], []
         X = E.nd("X", (E.size("n", 0), E.size("d", 1)))
         for coor, m in enum_spec(a._p, (0,)):
             if not isinstance(m, Obj):
@@ -130,8 +130,24 @@ class AlterForDebugging(Contract):
                         conj_tr.append(E.forall_range([(0, n), (0, z(y.shape[1]))], lambda r, c: y.get(r, c) == models.out2F[meth](st, models.row_of(E, X, r), c + (1 if wrong else 0))))
                     dbg = m.fields.get("_debug")
                     conj_rec.append(z3.BoolVal(isinstance(dbg, Obj) and dbg.fields["inputs"].get(meth) is X and dbg.fields["outputs"].get(meth) is y))
+                    # a SECOND call with the same array object whose content was replaced in place (a reused buffer): the original method runs
+                    # again on the new content - nothing is answered from what was recorded
+                    X2 = E.nd("X_second_call", (X.shape[0], X.shape[1]))
+                    X.cell.term = X2.cell.term
+                    t1 = len(E.trace)
+                    y2 = E.call_method(m, meth, [X], {}, None)
+                    again = [t for t in E.trace[t1:] if t["op"] == meth and t["obj"] is m]
+                    ok2 = len(again) == 1 and again[0]["X"] is X and isinstance(y2, NdArr) and y2 is not y
+                    conj_again.append(z3.BoolVal(ok2))
+                    if ok2:
+                        st2 = again[0]["state"]
+                        if meth == "predict":
+                            conj_again.append(E.forall_range([(0, n)], lambda r: y2.get(r) == models.predF(st2, models.row_of(E, X, r))))
+                        else:
+                            conj_again.append(E.forall_range([(0, n), (0, z(y2.shape[1]))], lambda r, c: y2.get(r, c) == models.out2F[meth](st2, models.row_of(E, X, r), c)))
         out["every_replaced_method_returns_exactly_the_original_output"] = z3.And(*conj_tr) if conj_tr else z3.BoolVal(True)
         out["and_records_its_last_input_and_output"] = z3.And(*conj_rec) if conj_rec else z3.BoolVal(True)
+        out["a_second_call_on_the_same_refilled_array_runs_the_original_again"] = z3.And(*conj_again) if conj_again else z3.BoolVal(True)
         return out
 
     canaries = {"shifted_output": lambda E, a, res, old: AlterForDebugging().ensures(E, a, res, old, wrong=True)[
